@@ -61,6 +61,7 @@ fn main() {
         verif_root: std::env::var_os("VERIF_ROOT").map(PathBuf::from).unwrap_or_else(|| PathBuf::from("/verif")),
         max_wall_s: None,
         write_evidence: true,
+        variant: None,
     };
     let mut i = 2;
     while i < args.len() {
@@ -93,6 +94,10 @@ fn main() {
             }
             "--replay" => {
                 opts.replay = Some(PathBuf::from(need(i)));
+                i += 2;
+            }
+            "--variant" => {
+                opts.variant = Some(need(i));
                 i += 2;
             }
             "--no-evidence" => {
